@@ -106,7 +106,7 @@ def run(ck, ix, tier):
             bad = [b for b in bad if not (isinstance(b, ast.Call) and norm(b) == "float(token_text)")]
         ck.check(not bad, "G-PROV", f"no-float-on-factor-path|{q}", f.loc(bad[0]) if bad else f.loc(), "no float()/float literal/math.* on the factor path",
                  f"`{norm(bad[0]) if bad else ''}` introduces binary floating point on the conversion-factor path of exact registries")
-    ck.floor("G-PROV", n, 9, "functions on the factor path scanned for float contamination")
+    ck.floor("G-PROV", n, 5, "functions on the factor path scanned for float contamination")
 
     # ------------------------------------------------------------ get_name: on-the-fly prefixed units
     fi = ix.func(PR, "GenericPlainRegistry.get_name")
